@@ -12,7 +12,7 @@
 // transactions take the real code paths of chain.executeTx:
 //
 //	deploy payload : any bytes; stored as the contract code, creator recorded
-//	call payload   : {"ops":[["set","k","v"],["del","k"],["event","name"],["fail","msg"],["sysfail"]]}
+//	call payload   : {"ops":[["set","k","v"],["del","k"],["event","name"],["burn","200000"],["fail","msg"],["sysfail"]]}
 //
 // "fail" returns a runtime (vm) error after the preceding ops have touched the contract
 // state (so the caller's rollback is exercised); "sysfail" returns a system error.
@@ -26,6 +26,7 @@ import (
 	"errors"
 	"math/big"
 	"os"
+	"strconv"
 
 	"github.com/aergoio/aergo-lib/log"
 	"github.com/aergoio/aergo/v2/state"
@@ -82,10 +83,13 @@ type stubProgram struct {
 const stubGasPerOp = 1000
 
 func (c *vmContext) feeFor(nops int) (*big.Int, bool) {
+	return c.feeForGas(uint64(nops) * stubGasPerOp)
+}
+
+func (c *vmContext) feeForGas(gas uint64) (*big.Int, bool) {
 	if c.bi == nil || c.bi.ForkVersion < 2 {
 		return new(big.Int), true
 	}
-	gas := uint64(nops) * stubGasPerOp
 	ok := true
 	if gas > c.gasLimit {
 		gas = c.gasLimit
@@ -110,7 +114,16 @@ func Call(contractState *statedb.ContractState, payload, contractAddress []byte,
 		f, _ := ctx.feeFor(1)
 		return "", nil, "", f, errors.New("stub vm: no code at recipient")
 	}
-	fee, enough := ctx.feeFor(len(prog.Ops))
+	// every op costs stubGasPerOp; ["burn","N"] stands for expensive contract code and costs N more
+	gas := uint64(len(prog.Ops)) * stubGasPerOp
+	for _, op := range prog.Ops {
+		if len(op) == 2 && op[0] == "burn" {
+			if n, err := strconv.ParseUint(op[1], 10, 32); err == nil {
+				gas += n
+			}
+		}
+	}
+	fee, enough := ctx.feeForGas(gas)
 	if !enough {
 		return "", nil, "", fee, errors.New("stub vm: not enough gas")
 	}
@@ -152,6 +165,8 @@ func Call(contractState *statedb.ContractState, payload, contractAddress []byte,
 				msg = op[1]
 			}
 			return fail(events, fee, errors.New(msg))
+		case "burn":
+			// accounted for above
 		case "sysfail":
 			return fail(events, fee, newVmSystemError(errors.New("stub vm: system failure")))
 		default:
